@@ -16,6 +16,26 @@ P = {
  "C10": seq("Every program up to the completed depth over the hash commands (fields {f,g,''}, values incl. empty, numeric extremes and CRLF) from empty, seeded hashes and wrong-typed keys, compared with a map model in every state.", "DESIGN.md §3 C10"),
  "C11": seq("Every program up to the completed depth over the set commands (members {a,b,''}, colliding and non-colliding keys, every combination of existing/missing/wrong-typed operands) compared with a map-of-sets model; results of random commands are adopted after checking they were admissible.", "DESIGN.md §3 C11"),
  "C12": seq("Every program up to the completed depth over ZADD (every option combination in both letter cases), ZREM, ZRANK, ZRANGE (index windows, REV, WITHSCORES) with tied, negative, fractional and infinite scores, from empty and seeded trees up to height 3; the AVL checker (BST order, stored heights, balance, len, dict<->Names) runs in every reachable state.", "DESIGN.md §3 C12"),
+ "C02": (True, "respmc", "exploration",
+   "exhaustive enumeration of read-chunk partitions of encoded command streams and of short malformed byte strings, against the real parser and connection handler",
+   "Every argument vector over an alphabet of CR, LF, NUL, 0xFF and RESP metacharacters (incl. a 5000-byte argument and pipelines) is encoded and fed to resp.ParseStream under every partition into read chunks (all 2^(L-1) for L<=16, else <=2/3 cut points, single bytes, zero-length reads); every byte string up to length 4/5 over {*,$,+,-,:,0,1,2,a,CR,LF} plus targeted malformed families is fed alone and around valid commands, at parser level and through Manager.Handle with a second connection probing liveness.",
+   "In-memory connections deliver exactly the scripted chunks; TCP behaviour of the built binary, longer inputs and bytes outside the alphabets are not covered.", "DESIGN.md §3 C02"),
+ "C03": (True, "seqmc", "exploration",
+   "exhaustive single-command sweep from payload-rich pre-states plus exhaustive short pipelines through the connection handler, replies re-decoded by an independent strict RESP decoder and compared with a reference model",
+   "Every registered command x every argument vector (<= 3/4 arguments) over keys and payloads containing CR LF, from pre-states of every value type whose members, fields, values and key names contain CR LF, empty strings and RESP look-alikes: the raw reply must decode strictly to exactly one value the model accepts (payload bit-exact, nil results flagged). Every pipeline of <= 2/3 commands over a 20-command alphabet through Manager.Handle as one chunk and every two-chunk split: reply count, order and content.",
+   "Reference model for reply content; commands outside the model (SUBSCRIBE/PUBLISH/RCONF/MEMBER) are only checked for well-formedness; Pub/Sub pushes are C19's business.", "DESIGN.md §3 C03"),
+ "C04": (True, "seqmc", "exploration",
+   "bounded-exhaustive sweep of (command, argument vector, pre-state) triples on the real executors under a controlled scheduler that detects panics, blocked threads and leaked locks",
+   "Every registered command (+ SELECT, an unknown name, the empty command) x every argument count 0..3 over a 21-value adversarial alphabet (thorough: up to 6 with the full alphabet in the last two positions) x pre-state {missing, one key of each type, expired key}: no panic in any goroutine, the call returns (blocking pops within their virtual-time timeout), no lock stays held, probe commands on the same / a stripe-colliding / another key complete, and the worker process survives (memory-capped, hang watchdog).",
+   "Parser-level inputs are C02's; values outside the alphabet and longer argument vectors are not covered; virtual clock replaces real time.", "DESIGN.md §3 C04"),
+ "C17": (True, "globmc", "model_checking",
+   "exhaustive enumeration of (pattern, subject) pairs up to a length bound against an independent reference matcher, directly and through KEYS",
+   "Every pattern up to length 4/6 over {a,b,*,?,[,],^,-,\\} against every subject up to length 3/4 over {a,b,c,-,],^} through util.PattenMatch, and every pattern up to length 3/5 through the KEYS command on a keyspace holding all subjects of length <= 2 plus an expired key; compared with a reference matcher of the documented grammar; panics and non-termination reported.",
+   "Corners the grammar leaves open (empty class, dangling '-', reversed range, '^' not first, escaped range endpoint) are computed but excluded from the verdict; longer patterns/subjects and other bytes are not covered.", "DESIGN.md §3 C17"),
+ "C20": (True, "dbmc", "model_checking",
+   "explicit-state search over all merges of per-connection command sequences issued through the real connection handler, compared with a per-connection model",
+   "For database counts {1,2,3,16}: every merge of 2-3 connections' programs (<= 2-3 commands each) over SELECT with 13 argument forms (valid, boundary, negative, empty, non-numeric, non-canonical, overflowing) and data commands, through Manager.Handle on in-memory connections; every reply is compared with a model holding one keyspace per database and one selected index per connection, and every database dump with its model keyspace.",
+   "Commands are issued one at a time (interleaving = merge of sequences); simultaneous execution is covered by C05's race pass.", "DESIGN.md §3 C20"),
  "C18": seq("Every program up to the completed depth over XADD (explicit, partial and auto ids; NOMKSTREAM; MAXLEN/MINID with = and ~) and XRANGE (every bound shape) plus millisecond clock events, compared with an ordered-slice model; id order and id<->entry bijection are checked in every state.", "DESIGN.md §3 C18"),
 }
 NOT_YET = "check not built yet (work in progress in this session; see DESIGN.md for the planned engine)"
